@@ -7,6 +7,11 @@ configuration, replayed with a logging OpenFile, a sentinel-writing shell and a 
 two Execute calls on ONE interp.Interpreter whose configurations differ, every open / process start / refusal of
 the second run judged against the configuration of THAT Execute), Trace_IOStreams (random longer runs recorded from the real interpreter), and a go/ast
 scan of package interp for open-file / os/exec call sites the model does not know (exit 2, never a violation).
+
+Name dimensions of the model (all judged against the same statement: every name meets the same flag checks and the same
+open-file function): four spellings of a regular file's path (absolute, ./relative, with "..", /dev/../...), /dev/null,
+command lines that are empty / blank / start with blanks in all three process-starting forms, operands that are a directory,
+a missing file, the empty string, an assignment, "-".
 """
 import copy, json, os
 from vlib import MachineryError, REPO
@@ -16,8 +21,11 @@ import iocommon
 def run(ctx):
     q = ctx.quick
     ctx.rule = ('a case is one run: configuration (3 deny flags, custom OpenFile on/off) + a history of 1-3 I/O actions '
-                '(print to stdout / > / >> / |, close, fflush, system, getline < file, cmd | getline, file operand; names '
-                'literal or computed at run time, incl. "-", /dev/stdout, /dev/stderr, other-direction and close-then-reopen) '
+                '(print to stdout / > / >> / |, close, fflush, system, getline < file, cmd | getline, operands; names '
+                'literal or computed at run time, incl. "-", /dev/stdout, /dev/stderr, /dev/null, a regular file spelled as absolute path / '
+                './relative / with ".." / as /dev/../<abs>, command lines "", "  " and "  cat", operands that are a directory, a missing '
+                'file, "" or v=1 (alone, or in front of any other operand), other-direction and close-then-reopen; the newer name '
+                'classes singly under every configuration and, one representative each, paired with every older action in both orders) '
                 'exported by TLC from Gen_IOStreams; or a session: two Execute calls on one reusable interp.Interpreter, a first '
                 'run (nothing / print > file / getline < file) under one configuration, then one I/O action under a configuration '
                 'that differs in one flag or in the presence of the custom OpenFile (thorough: in anything; two actions), the '
@@ -43,8 +51,15 @@ def run(ctx):
     if skip_model:
         ctx.notes.append('model run and call-site scan skipped (VERIF_SKIP_MODEL)')
     else:
-        mc = ctx.cfg('MC_IOStreams', constants={'Depth': 2 if q else 3, 'Sandbox': 'TRUE', 'FailMax': 0, 'MaxRuns': 2})
+        mc = ctx.cfg('MC_IOStreams', constants={'Depth': 2 if q else 3, 'Sandbox': 'TRUE', 'FailMax': 0, 'MaxRuns': 2,
+                                                'NLs': '{"smart"}', 'Rich': 0})
         ctx.tlc('MC_IOStreams', mc, timeout=1500, heap='8g', capture='callsites.ndjson')
+        if not q:
+            # every action of the newer name dimensions (all spellings, /dev/null in every form, every blank command line,
+            # every operand kind), histories of two actions, sessions of two runs
+            mc1 = ctx.cfg('MC_IOStreams', name='MC_IOStreams_allnames', constants={'Depth': 2, 'Sandbox': 'TRUE', 'FailMax': 0,
+                                                                                   'MaxRuns': 2, 'NLs': '{"smart"}', 'Rich': 1})
+            ctx.tlc('MC_IOStreams', mc1, timeout=1500, heap='8g')
     # 2. spec -> code
     gen = ctx.cfg('Gen_IOStreams', name='Gen_sandbox', constants={'Family': '"sandbox"', 'Depth': 3, 'Rich': 1 if q else 2, 'Runs': 2})
     ctx.tlc('Gen_IOStreams', gen, capture='cases.ndjson', timeout=1800, heap='8g')
@@ -53,9 +68,26 @@ def run(ctx):
     if nses < 1000:
         raise MachineryError(f'Gen_IOStreams exported only {nses} sessions (two Execute calls on one Interpreter)')
     ctx.log(f'cases.ndjson: {nses} of the exported behaviours are sessions on one Interpreter')
+    nnew = iocommon.split_cases(ctx, 'cases.ndjson', 'newdims.ndjson', iocommon.has_new_dim)
+    kinds = {}
+    for line in open(ctx.path('newdims.ndjson')):
+        c = json.loads(line)
+        for r in (c['runs'] if c.get('fam') == 'session' else [c]):
+            for a in r['acts']:
+                if iocommon.new_dim_act(a):
+                    k = a['cls'] if a.get('cls') in iocommon.PATH_CLASSES else (a['op'] + ':' + a['name'])
+                    kinds[k] = kinds.get(k, 0) + 1
+    need = ['rel', 'dotdot', 'devdd', 'print:/dev/null', 'getline_file:/dev/null', 'operand:/dev/null', 'system:blank', 'system:empty',
+            'print:blank', 'getline_cmd:empty', 'system:spcat', 'operand:d1', 'operand:', 'operand:v=1']
+    missing = [k for k in need if kinds.get(k, 0) < 8]
+    if missing:
+        raise MachineryError(f'Gen_IOStreams: too few behaviours exercise {missing} (counts: {kinds})')
+    ctx.log(f'cases.ndjson: {nnew} behaviours exercise the newer name dimensions (path spellings, /dev/null, blank command lines, '
+            f'operand kinds)')
     s = iocommon.replay(ctx, 'cases.ndjson', 'sandbox', iocommon.corrupt, 2000)
     if all(sig in iocommon.known_sigs(ctx) for sig in s['sig_counts']):
         ctx.selftest(ctx.path('sessions.ndjson'), ctx.pid, iocommon.corrupt_session, 'sessions')
+        ctx.selftest(ctx.path('newdims.ndjson'), ctx.pid, iocommon.corrupt_new_dim, 'name-dimensions', k=24)
     if not q:
         # sessions of THREE Execute calls on one Interpreter (single-flip configurations, one action in the later runs)
         gen3 = ctx.cfg('Gen_IOStreams', name='Gen_sessions3', constants={'Family': '"sandbox"', 'Depth': 3, 'Rich': 1, 'Runs': 3})
